@@ -9,4 +9,5 @@ Extraction "model_gsd.ml"
   GsdInterp.interp GsdInterp.to_res
   GsdShape.shapeb GsdShape.tree_size GsdShape.child_rx GsdShape.implicit_silent
   GsdRender.decode_settings GsdRender.settings_tree GsdRender.settings_okb GsdRender.tree_eqb
+  GsdRender.decode_file GsdRender.file_okb GsdRender.file_says GsdRender.file_tree
   Peg.peg_parse.
